@@ -23,7 +23,7 @@ func init() {
 	register(&Driver{
 		ID:        "C10",
 		Technique: "differential exhaustive exploration: every program (qualifier/primary populations, self-candidate holders, dependency graphs) is started under every permutation of registry iteration order and registration order, plus every single (thorough: pair of) non-default per-call iteration answer; the order-independent outcome signature must be identical across all executions of a program; scan-phase goroutine schedules are explored by the controlled scheduler",
-		Rule:      "programs = C08 families (a)(b)(c) x all provider permutations; holders that implement their own field's interface with 1-2 other candidates x all permutations of (holder, providers); labelled graphs n<=3 x all 6 base orders x all 6 registration orders; per-call order deviations (bound 1) on 2-provider programs; non-trivial = program with >= 2 candidates for some point or >= 2 components; tied points (several equally ranked candidates) are masked",
+		Rule:      "programs = C08 families (a)(b)(c) x all provider permutations; holders that implement their own field's interface with 1-2 other candidates x all permutations of (holder, providers); labelled graphs n<=3 x all 6 base orders x all 6 registration orders; per-call order deviations (bound 1) on 2-provider programs; non-trivial = program with >= 2 candidates for some point or >= 2 components; tied points (several equally ranked candidates) are masked. Families added in later rounds (look-ups inside Init, retries after an abandoned attempt, user extension points at every Order, several containers, odd names / types / values) are listed per part in this file and described in MANIFEST.json (level_claimed.text) and DESIGN §7",
 		Assumptions: []string{
 			"a point is tied exactly when the C08 ranking leaves several candidates; its value may vary within that set",
 			"more than three providers / more than two per-call order deviations are not covered",
